@@ -127,6 +127,12 @@ QAliasInt = typing.TypeAliasType("QAliasInt", int)
 QAliasDict = typing.TypeAliasType("QAliasDict", dict[str, int])
 QNewInt = typing.NewType("QNewInt", int)
 QNewDC = typing.NewType("QNewDC", DC)
+# alias chains of depth >= 2 (alias of alias, alias of a NewType of an alias)
+QAlias2 = typing.TypeAliasType("QAlias2", QAliasList)
+QAlias3 = typing.TypeAliasType("QAlias3", QAlias2)
+QNewOverAlias = typing.NewType("QNewOverAlias", QAliasInt)
+QAliasOverNew = typing.TypeAliasType("QAliasOverNew", QNewOverAlias)
+QAliasDict2 = typing.TypeAliasType("QAliasDict2", QAliasDict)
 T = typing.TypeVar("T")
 TBound = typing.TypeVar("TBound", bound=int)
 TCons = typing.TypeVar("TCons", str, int)
@@ -620,6 +626,10 @@ def _wrapper_entries(base: list[Entry], tier: str):
     for s in WRAP_SUBSET:
         for k in _WRAPPERS:
             mk((k,), by[s])
+    # both tiers: chains of depth 2-3 over a few bases (alias of alias, alias of NewType, NewType of alias, alias of NewType of alias)
+    for s in ("int", "list[int]", "dict[str, int]", "DC", "typing.Mapping[str, int]"):
+        for chain in (("alias", "alias"), ("newtype", "alias"), ("alias", "newtype"), ("alias", "newtype", "alias"), ("alias", "alias", "alias")):
+            mk(chain, by[s])
     if tier == "thorough":
         done = set(WRAP_SUBSET)
         for b in base:
@@ -629,6 +639,8 @@ def _wrapper_entries(base: list[Entry], tier: str):
         for s in CHAIN_SUBSET:
             for k1 in ("newtype", "alias"):
                 for k2 in _WRAPPERS:
+                    if s in ("int", "DC") and (k1, k2) in (("alias", "alias"), ("newtype", "alias"), ("alias", "newtype")):
+                        continue  # built above for both tiers
                     mk((k1, k2), by[s])
             mk(("stralias", "newtype"), by[s])
             mk(("stralias", "alias"), by[s])
